@@ -5,7 +5,6 @@ Local Open Scope N_scope.
 
 Global Arguments wr : simpl never.
 Global Arguments write_block : simpl never.
-Global Arguments set_head : simpl never.
 
 (* ---- memN / addN / association lists ---------------------------------------- *)
 
@@ -117,102 +116,38 @@ Proof.
   intros s; unfold alive. destruct (budget s) as [[|k]|]; [right; auto|left; discriminate|left; discriminate].
 Qed.
 
-Lemma wr_dead : forall m w s, budget s = Some O -> wr m w s = s.
-Proof. intros m w s H; unfold wr. destruct w; auto. rewrite H; auto. Qed.
+Lemma wr_dead : forall w s, budget s = Some O -> wr w s = s.
+Proof. intros w s H; unfold wr. destruct w; auto. rewrite H; auto. Qed.
 
-Lemma wr_nil : forall m s, wr m [] s = s.
+Lemma wr_nil : forall s, wr [] s = s.
 Proof. reflexivity. Qed.
 
-Lemma wr_alive_disk : forall m w s, alive s -> disk_of (wr m w s) = apply_write w (disk_of s).
+Lemma wr_alive_disk : forall w s, alive s -> disk_of (wr w s) = apply_write w (disk_of s).
 Proof.
-  intros m w s H; unfold wr, alive in *. destruct w; auto.
+  intros w s H; unfold wr, alive in *. destruct w; auto.
   destruct (budget s) as [[|k]|]; simpl; auto. congruence.
 Qed.
 
-Lemma wr_alive_back : forall m w s, alive (wr m w s) -> alive s.
-Proof.
-  intros m w s H Hd. rewrite wr_dead in H; auto.
-Qed.
+Lemma wr_alive_back : forall w s, alive (wr w s) -> alive s.
+Proof. intros w s H Hd. rewrite wr_dead in H; auto. Qed.
 
-Lemma wr_cur : forall m w s, cur (wr m w s) = cur s.
-Proof. intros m w s; unfold wr. destruct w; auto. destruct (budget s) as [[|k]|]; auto. Qed.
+Lemma wr_cur : forall w s, cur (wr w s) = cur s.
+Proof. intros w s; unfold wr. destruct w; auto. destruct (budget s) as [[|k]|]; auto. Qed.
 
-Lemma wr_future : forall m w s, future (wr m w s) = future s.
-Proof. intros m w s; unfold wr. destruct w; auto. destruct (budget s) as [[|k]|]; auto. Qed.
+Lemma wr_future : forall w s, future (wr w s) = future s.
+Proof. intros w s; unfold wr. destruct w; auto. destruct (budget s) as [[|k]|]; auto. Qed.
 
 (* the disk after a budgeted write is the old one or the written one *)
-Lemma wr_disk_cases : forall m w s,
-  disk_of (wr m w s) = disk_of s \/ (alive s /\ disk_of (wr m w s) = apply_write w (disk_of s)).
+Lemma wr_disk_cases : forall w s,
+  (disk_of (wr w s) = disk_of s /\ ~ alive s) \/ (alive s /\ disk_of (wr w s) = apply_write w (disk_of s)).
 Proof.
-  intros m w s. destruct (alive_dec s) as [H|H].
+  intros w s. destruct (alive_dec s) as [H|H].
   - right; split; auto. apply wr_alive_disk; auto.
   - left. rewrite wr_dead; auto.
 Qed.
 
-(* if the process is dead after a non-empty write that it was alive for, that write
-   was the last one and [crashmid] is its flag *)
-Lemma wr_crashmid : forall m w s, w <> [] -> alive s -> ~ alive (wr m w s) -> crashmid (wr m w s) = m.
-Proof.
-  intros m w s Hw Ha Hd. unfold wr, alive in *. destruct w; [congruence|].
-  destruct (budget s) as [[|k]|] eqn:E; simpl in *; try congruence.
-  exfalso; apply Hd; discriminate.
-Qed.
-
-Lemma wr_budget_none : forall m w s, budget s = None -> budget (wr m w s) = None.
-Proof. intros m w s H; unfold wr. destruct w; auto. rewrite H; auto. Qed.
-
-(* sequences of budgeted writes *)
-Fixpoint wrs (l : list (bool * write)) (s : st) : st :=
-  match l with
-  | [] => s
-  | (m, w) :: r => wrs r (wr m w s)
-  end.
-
-Lemma wrs_app : forall a b s, wrs (a ++ b) s = wrs b (wrs a s).
-Proof. induction a as [|[m w] a IH]; simpl; auto. Qed.
-
-Lemma wrs_dead : forall l s, budget s = Some O -> wrs l s = s.
-Proof. induction l as [|[m w] l IH]; simpl; intros s H; auto. rewrite wr_dead; auto. Qed.
-
-Lemma wrs_cur : forall l s, cur (wrs l s) = cur s.
-Proof. induction l as [|[m w] l IH]; simpl; intros; auto. rewrite IH, wr_cur; auto. Qed.
-
-Lemma wrs_future : forall l s, future (wrs l s) = future s.
-Proof. induction l as [|[m w] l IH]; simpl; intros; auto. rewrite IH, wr_future; auto. Qed.
-
-Lemma wrs_alive_back : forall l s, alive (wrs l s) -> alive s.
-Proof.
-  induction l as [|[m w] l IH]; simpl; intros s H; auto.
-  apply IH in H. eapply wr_alive_back; eauto.
-Qed.
-
-Lemma wrs_alive_disk : forall l s, alive (wrs l s) -> disk_of (wrs l s) = applyl (map snd l) (disk_of s).
-Proof.
-  induction l as [|[m w] l IH]; simpl; intros s H; auto.
-  rewrite IH; auto. rewrite wr_alive_disk; auto.
-  eapply wr_alive_back. eapply wrs_alive_back; eauto.
-Qed.
-
-Lemma wrs_budget_none : forall l s, budget s = None -> budget (wrs l s) = None.
-Proof. induction l as [|[m w] l IH]; simpl; intros; auto. apply IH. apply wr_budget_none; auto. Qed.
-
-(* dead after, alive before: some write was the last one applied *)
-Lemma wrs_dead_split : forall l s, alive s -> ~ alive (wrs l s) ->
-  exists pre m (w : write) post, l = pre ++ (m, w) :: post /\ w <> [] /\
-    disk_of (wrs l s) = apply_write w (applyl (map snd pre) (disk_of s)) /\ crashmid (wrs l s) = m.
-Proof.
-  induction l as [|[m w] l IH]; cbn [wrs]; intros s Ha Hd; [contradiction|].
-  destruct (alive_dec (wr m w s)) as [Ha1|Hd1].
-  - destruct (IH _ Ha1 Hd) as [pre [m' [w' [post [El [Hw [Ed Ec]]]]]]].
-    exists ((m, w) :: pre), m', w', post.
-    split; [rewrite El; reflexivity|]. split; auto. split; auto.
-    rewrite Ed, wr_alive_disk; auto.
-  - assert (Hw : w <> []). { intros ->. rewrite wr_nil in Hd1. apply Ha; auto. }
-    exists [], m, w, l. rewrite (wrs_dead l _ Hd1).
-    split; [reflexivity|]. split; [exact Hw|]. split.
-    + apply wr_alive_disk; auto.
-    + apply wr_crashmid; auto.
-Qed.
+Lemma wr_budget_none : forall w s, budget s = None -> budget (wr w s) = None.
+Proof. intros w s H; unfold wr. destruct w; auto. rewrite H; auto. Qed.
 
 Lemma prefix_inv : forall (P : disk -> Prop) ws d0,
   P d0 ->
@@ -224,23 +159,9 @@ Proof.
   apply (Hstep pre w post); auto. apply (IH (w :: post)); auto.
 Qed.
 
-(* whatever the budget, the disk after a sequence satisfies every predicate that
-   survives each write of the sequence in turn *)
-Lemma wrs_inv : forall (P : disk -> Prop) l s,
-  P (disk_of s) ->
-  (forall pre w post, map snd l = pre ++ w :: post ->
-     P (applyl pre (disk_of s)) -> P (apply_write w (applyl pre (disk_of s)))) ->
-  P (disk_of (wrs l s)).
+(* one batch = its elementary writes applied one after the other *)
+Lemma apply_write_concat : forall ws d, apply_write (concat ws) d = applyl ws d.
 Proof.
-  intros P l s H0 Hstep.
-  destruct (alive_dec s) as [Ha|Hd]; [|rewrite wrs_dead; auto].
-  destruct (alive_dec (wrs l s)) as [Ha2|Hd2].
-  - rewrite wrs_alive_disk; auto.
-    apply (prefix_inv P (map snd l) (disk_of s) H0 Hstep (map snd l) []). rewrite app_nil_r; auto.
-  - assert (Hx : ~ alive (wrs l s)) by (intros Hx; apply Hx; auto).
-    destruct (wrs_dead_split l s Ha Hx) as [pre [m [w [post [El [Hw [Ed Ec]]]]]]].
-    rewrite Ed. apply (Hstep (map snd pre) w (map snd post)).
-    + rewrite El, map_app; auto.
-    + apply (prefix_inv P (map snd l) (disk_of s) H0 Hstep (map snd pre) (w :: map snd post)).
-      rewrite El, map_app; auto.
+  induction ws as [|w ws IH]; intros d; simpl; auto.
+  rewrite apply_write_app. rewrite IH. reflexivity.
 Qed.
